@@ -274,7 +274,9 @@ func cellsC12(thorough bool) []Cfg {
 	}
 	rps := []rpsV{{unl(3000), 500}, {cst(2, 500), 0}, {cst(2, 1500), 0}, {cst(2, 4000), 0}, {once(2), 0},
 		// a profile of several segments: the switch from one segment to the next is not the end of the profile
-		{comp(once(1), cst(2, 1000)), 0}, {comp(once(2), cst(0, 500), once(1)), 0}}
+		{comp(once(1), cst(2, 1000)), 0}, {comp(once(2), cst(0, 500), once(1)), 0},
+		// known part first, then a part of unknown length: the profile is not over when the known part is drained
+		{comp(once(1), unl(2000)), 500}}
 	for _, st := range startups {
 		for _, rv := range rps {
 			for _, per := range []bool{false, true} {
